@@ -112,6 +112,8 @@ fn c02_cases(cx: &Ctx, p: &'static Params) -> Vec<VCase> {
     out.extend(forge::usehint_corner_cases(p, &pk0, &pk0b, cx.tier.pick(2048, 16384)));
     // D7b: butterfly-path response vectors (one NTT output slot pushed to its maximum), FIPS 204 accepts them
     out.extend(forge::butterfly_cases(p, &pk0, &pk0b));
+    // D7c: slot-maximisation family (one coefficient of the inverse-transform input at (l+1) q/2 and beyond); FIPS 204 rejects
+    out.extend(crate::e7::slot_max_cases(p, cx.tier == Tier::Thorough).into_iter().map(|(c, _)| c));
     // D7: the sparse-coset stress vectors completed to signatures FIPS 204 accepts (DESIGN 3.2 / 3.1a)
     out.extend(crate::e7::load_witnesses(p).into_iter().map(|(_, c)| c));
     out
